@@ -182,8 +182,9 @@ func (s *sched) quiesce(timeout time.Duration) (int, string) {
 
 // faultyRW wraps a real interface{} backend; every call parks.
 type faultyRW struct {
-	s     *sched
-	inner Backend
+	s        *sched
+	inner    Backend
+	wrapErrs bool // behave like a decorating backend that adds context to Read errors with %w
 }
 
 func ctxTid(ctx context.Context) int {
@@ -220,6 +221,10 @@ func (f *faultyRW) doRead(ctx context.Context, key []byte) (int, error) {
 	if d.late {
 		f.s.parkLate(co)
 		co.t0, co.t1 = now(), now() // what the frontend does with the answer happens from here on
+	}
+	if f.wrapErrs && err != nil {
+		// a decorating backend adds context to the errors of the backend it wraps; errors.Is / errors.As still see through it
+		err = fmt.Errorf("decorated backend read of %q: %w", key, err)
 	}
 	return v, err
 }
